@@ -2,7 +2,7 @@
     Statements only; every proof is [exact <lemma>]. *)
 From Coq Require Import String Ascii List Bool ZArith.
 From Raven Require Import Base.GoStr Model.Store Model.Ops Spec.UidSpec Proof.UidSpecB
-  Proof.StoreInv Proof.OpsInv Proof.UidHist Proof.UidAppend Model.UidView Model.AppendSched Proof.AppendSched.
+  Proof.StoreInv Proof.OpsInv Proof.UidHist Proof.UidAppend Model.UidView Model.AppendSched Proof.AppendSched Model.MoveSched Proof.MoveSched.
 Import ListNotations.
 Local Open Scope Z_scope.
 
@@ -176,6 +176,65 @@ Example c03_announce_uidnext_refuted :
     Forall (fun o => writer_ok 1 o = true) e3 /\
     append_sched_gen announce_uidnext s 1 [] [] [] e3 [] = (s', RAppendUid v u, Some (uid, g)) /\ u <> uid.
 Proof. exact announce_uidnext_refuted. Qed.
+
+(** ---- schedules: the Junk/NonJunk move and UID COPY at statement level -------------
+
+    [uidstore1_sched s sel mode new u e0 e1 busy]: one entry of UID STORE whose
+    Junk/NonJunk flag triggers message.MoveMessageToMailbox, in the tree's
+    statement order — L: look the destination up by name; BEGIN; R: read its
+    uid_next INSIDE the transaction; INSERT; UPDATE uid_next; DELETE the source
+    row; COMMIT — with the complete commands [e0] of other sessions before L and
+    [e1] between L and the transaction (SQLite lets no other writer commit inside
+    it); [busy = true]: the transaction is refused as a whole ("database is
+    locked") and the flags are stored in place.  [uidcopy_sched] likewise for
+    uid.handleUIDCopy (set resolved first).  The other sessions' commands are
+    ARBITRARY clean histories (deliveries, APPEND, COPY, moves, STORE \Deleted +
+    EXPUNGE, CREATE/DELETE/RENAME in scope). *)
+
+(** For EVERY such interleaving no UID is reused (the log of everything ever
+    visible stays functional; what a client saw under (name, validity, uid) before
+    is what it sees after), UIDNEXT is above every UID ever visible and is not
+    below its value before the command, for every (name, UIDVALIDITY). *)
+Theorem c03_junk_move_all_schedules : forall s sel mode new u e0 e1 busy,
+  Inv s -> clean s e0 = true -> clean (run e0 s) e1 = true ->
+  let s' := uidstore1_sched s sel mode new u e0 e1 busy in
+  uid_functional s' /\ uidnext_truthful s' /\
+  (forall n v x1 x2, advertises s n v x1 -> advertises s' n v x2 -> x1 <= x2) /\
+  (forall n v u' g1 g2, visible s n v u' g1 -> visible s' n v u' g2 -> g1 = g2).
+Proof. exact junk_move_all_schedules_l. Qed.
+Print Assumptions c03_junk_move_all_schedules.
+
+Theorem c03_uidcopy_all_schedules : forall s sel set dest e0 e1 busy,
+  Inv s -> clean s e0 = true -> clean (run e0 s) e1 = true ->
+  let s' := fst (uidcopy_sched s sel set dest e0 e1 busy) in
+  uid_functional s' /\ uidnext_truthful s' /\
+  (forall n v x1 x2, advertises s n v x1 -> advertises s' n v x2 -> x1 <= x2) /\
+  (forall n v u' g1 g2, visible s n v u' g1 -> visible s' n v u' g2 -> g1 = g2).
+Proof. exact uidcopy_all_schedules_l. Qed.
+Print Assumptions c03_uidcopy_all_schedules.
+
+(** with no other session they are the operations of the histories *)
+Theorem c03_move_sched_sequential : forall s msg src su dest fl,
+  Inv s -> move_sched s msg src su dest fl [] [] false = move_message s msg src su dest fl.
+Proof. exact move_sched_sequential_l. Qed.
+Print Assumptions c03_move_sched_sequential.
+
+Theorem c03_uidcopy_sched_sequential : forall s sel set dest,
+  Inv s -> uidcopy_sched s sel set dest [] [] false = op_uidcopy s sel set dest.
+Proof. exact uidcopy_sched_sequential_l. Qed.
+Print Assumptions c03_uidcopy_sched_sequential.
+
+(** regression (seeded change C03-4): reading uid_next together with the
+    destination id BEFORE BEGIN and writing it back as an absolute value is
+    refuted by the three-writer schedule (two deliveries to Spam, another
+    session's STORE \Deleted + EXPUNGE of the first of them, between L and the
+    transaction); the tree's order passes the same schedule *)
+Example c03_stale_move_refuted :
+  let s := run sched2_prep (init 100) in
+  clean s c034_env = true /\
+  spec_b (uidstore1_sched s 1 SAdd [JUNK] 1 [] c034_env false) = true /\
+  spec_b (uidstore1_sched_stale s 1 SAdd [JUNK] 1 [] c034_env) = false.
+Proof. exact stale_move_refuted. Qed.
 
 (** non-vacuity: a clean history that uses every kind of operation (UID COPY,
     COPY, a Junk move, RENAME INBOX with a message in it, DELETE + CREATE of the
